@@ -370,7 +370,7 @@ theorem step_inv {s s' : Sys} {ev : Ev} (inv : Inv s) (hs : step s ev = some s')
         · subst hh; simp only [setHandle_handles, if_true]; exact (base h').toIdle
         · simp only [setHandle_handles, if_neg hh]; exact base h'
   | loadIdx k gIx =>
-    obtain ⟨_, _, rfl | ⟨b, st, _, hf, _, rfl⟩⟩ := inv_loadIdx hs
+    obtain ⟨_, _, rfl | ⟨b, b', _, hf, _, rfl⟩⟩ := inv_loadIdx hs
     · exact inv
     · exact ⟨hS, fun h' => base h', inv.rets, inv.np⟩
   | consBegin h => obtain ⟨_, rfl⟩ := inv_consBegin hs; exact ⟨hS, fun h' => base h', inv.rets, inv.np⟩
